@@ -386,6 +386,67 @@ def fgnodes(rc):
             rc.fail(af, c, "the replacing factor must itself become the factor node", construct="replace: factor node")
 
 
+
+@rule("C14.partition", "the partition function multiplies EVERY factor of the model exactly once and sums the product's table (three sibling implementations)", floor=3)
+def partition(rc):
+    from ..layout import Env, eval_expr
+    repo = rc.repo
+    for rel, q in ((MN, "MarkovNetwork.get_partition_function"), (FG, "FactorGraph.get_partition_function"), (CG, "ClusterGraph.get_partition_function")):
+        f = repo.func(rel, q)
+        defs = single_defs(f)
+        prods = calls_named(f, "factor_product")
+        if len(prods) != 1:
+            raise AnalysisError(f"{q}: expected one factor_product call, found {len(prods)}")
+        c = prods[0]
+        # the running product may be seeded by a local that is re-bound to the product (`factor = self.factors[0]; factor = factor_product(factor, ..)`)
+        seeds = {}
+        for n in walk_no_nested(f.node):
+            if isinstance(n, ast.Assign) and len(n.targets) == 1 and isinstance(n.targets[0], ast.Name) and n.value is not c and n.lineno < c.lineno:
+                seeds[n.targets[0].id] = n.value
+        bad = None
+        for nfac in (1, 2, 3, 5):
+            env = Env({"self.factors": list(range(nfac)), "self.get_factors()": list(range(nfac))})
+            env["__by_text__"] = {"self.get_factors()": list(range(nfac))}
+            got = []
+            try:
+                for a in c.args:
+                    star = isinstance(a, ast.Starred)
+                    e = a.value if star else a
+                    if isinstance(e, ast.Name) and e.id in seeds:
+                        e = seeds[e.id]
+                    e = deep_resolve(e, {k: v for k, v in defs.items()})
+                    v = eval_expr(e, env)
+                    got += list(v) if star else [v]
+            except AnalysisError as ex:
+                raise AnalysisError(f"{q}: cannot evaluate the operands of `{norm(c, 90)}`: {ex}")
+            if sorted(got) != list(range(nfac)):
+                bad = (nfac, got)
+                break
+        rc.ob(f"{q}: `{norm(c, 100)}` multiplies each of n factors once for n in (1, 2, 3, 5): {bad is None}")
+        if bad:
+            rc.fail(f, c, f"with {bad[0]} factors the product takes the factors at positions {bad[1]} (each position must occur exactly once): the partition function is not "
+                    "the sum of the product of all factors", construct="partition function: every factor once")
+        # the value returned is the sum over the product's table
+        prod_names = {t.id for n in walk_no_nested(f.node) if isinstance(n, ast.Assign) and n.value is c for t in n.targets if isinstance(t, ast.Name)}
+        okr = False
+        for r in returns_of(f):
+            if r.value is None:
+                continue
+            v = deep_resolve(r.value, {k: d for k, d in defs.items() if k not in prod_names})
+            if isinstance(v, ast.Call) and call_name(v) == "sum" and v.args and not kwarg(v, "axis") and len(v.args) == 1:
+                a = v.args[0]
+                if isinstance(a, ast.Attribute) and a.attr == "values" and (dotted(a.value) in prod_names or a.value is c or (isinstance(a.value, ast.Call) and call_name(a.value) == "factor_product")):
+                    okr = True
+        if not okr:
+            rc.fail(f, f.node, "the partition function must be the plain sum over the table of the product of all factors", construct="partition function: sum of the product")
+    it = repo.func("pgmpy/base/UndirectedGraph.py", "UndirectedGraph.is_triangulated")
+    rv = [r.value for r in returns_of(it) if r.value is not None]
+    okc = len(rv) == 1 and tm.is_(rv[0], "nx.is_chordal(self)") is not None
+    rc.ob(f"UndirectedGraph.is_triangulated answers by chordality of the graph itself: {okc}")
+    if not okc:
+        rc.fail(it, it.node, "is_triangulated gates the early return of triangulate(): it must be exactly chordality of this graph", construct="is_triangulated = chordal")
+
+
 _ASSIGN = "                if not is_used[index] and set(factor.scope()).issubset(node):\n                    clique_factors.append(factor)\n                    is_used[index] = True"
 
 
@@ -417,7 +478,21 @@ MUTANTS = [
          old="complete_graph.add_edge(*edge, weight=-weight)", new="complete_graph.add_edge(*edge, weight=weight)"),
     dict(kind="break", name="bn-to-mn-drops-isolated", file=BN, expect="C14.tree",
          old="        mm.add_nodes_from(moral_graph.nodes())\n", new=""),
-    dict(kind="repair", name="fg-node-is-the-factor", file=MN, expect="C14.fgnodes",
+    dict(kind="break", name="partition-skips-last-factor", file=MN, expect="C14.partition",
+         old="factor, *[self.factors[i] for i in range(1, len(self.factors))]\n        )\n        if set(factor.scope()) != set(self.nodes())",
+         new="factor, *[self.factors[i] for i in range(1, len(self.factors) - 1)]\n        )\n        if set(factor.scope()) != set(self.nodes())"),
+    dict(kind="break", name="partition-first-factor-twice", file=FG, expect="C14.partition",
+         old="factor, *[self.factors[i] for i in range(1, len(self.factors))]\n        )\n        if set(factor.scope()) != set(self.get_variable_nodes())",
+         new="factor, *[self.factors[i] for i in range(0, len(self.factors))]\n        )\n        if set(factor.scope()) != set(self.get_variable_nodes())"),
+    dict(kind="break", name="partition-max-instead-of-sum", file=CG, expect="C14.partition",
+         old="            return compat_fns.sum(factor.values)", new="            return compat_fns.max(factor.values)"),
+    dict(kind="twin", name="partition-star-all", file=MN,
+         old="        factor = self.factors[0]\n        factor = factor_product(\n            factor, *[self.factors[i] for i in range(1, len(self.factors))]\n        )\n        if set(factor.scope()) != set(self.nodes())",
+         new="        factor = factor_product(*self.factors)\n        if set(factor.scope()) != set(self.nodes())"),
+    dict(kind="twin", name="partition-slice", file=MN,
+         old="factor, *[self.factors[i] for i in range(1, len(self.factors))]\n        )\n        if set(factor.scope()) != set(self.nodes())",
+         new="factor, *self.factors[1:]\n        )\n        if set(factor.scope()) != set(self.nodes())"),
+    dict(kind="repair", name="fg-node-is-the-factor", file=MN, gone="C14.fgnodes", construct="factor node is a label, validator wants the factor",
          old='            factor_node = "phi_" + "_".join(scope)\n', new="            factor_node = factor\n"),
     dict(kind="twin", name="jt-usage-by-id", file=MN,
          old="        is_used = [False] * len(self.factors)\n", new="        is_used = [False for _ in self.factors]\n"),
